@@ -93,7 +93,7 @@ def explore(ctx):
             ctx.obligation("translator " + label, False, str(e))
             tr_ok = False
     case_modules = ["Ecpint.Props.C12Cases"] + ["Ecpint.Props.C12Cases.Part%d" % i for i in range(1, 10)] + ["Ecpint.Props.C12Cases.Closed"]
-    proofs_ok = ctx.lean_props("C12", extra_modules=case_modules) if tr_ok else False
+    proofs_ok = ctx.lean_props("C12All", extra_modules=["Ecpint.Props.C12"] + case_modules + ["Ecpint.Props.C12b"]) if tr_ok else False
     drv = build.compile_driver(b, "corr_radial.cpp", extra=["-I" + os.path.join(b.src, "external", "Faddeeva")])
     # what any generated class requests
     if classes is None:
